@@ -55,6 +55,7 @@ public:
     virtual void cancel() = 0;
     virtual void re_authenticate() = 0;          // mqtt_client::re_authenticate() (no completion handler)
     virtual void destroy() = 0;                  // destroys the mqtt_client object
+    virtual void move_assign_fresh() = 0;        // client = std::move(standby): replaces the client by a fresh one that stays alive elsewhere
     virtual bool alive() const = 0;
     virtual void emit_signal(int op, SigType type) = 0;
     virtual mq::connack_props connack_props() const = 0;
